@@ -11,9 +11,7 @@ def withPos (tok : String) (k : Pos → String) : String :=
 def fmtOutcome (over : Bool) (w : Color) (road : Bool) (wf bf : Nat) : String :=
   s!"{if over then 1 else 0} {colorStr w} {if road then "road" else "flats"} {wf} {bf}"
 
-/-- the internal hash field recomputed from the stacks -/
-def scratchHash (basis : Array W) (p : Pos) : W :=
-  (List.range p.height.size).foldl (fun h i => h ^^^ p.hashAt basis i) (BitVec.ofNat 64 Facts.fnvBasis)
+-- `scratchHash` (the internal hash field recomputed from the stacks) is `Tak.scratchHash` in Impl/Move.lean
 
 def applySeq (basis : Array W) (p : Pos) (tok : String) : Option Pos :=
   if tok == "-" then some p else
